@@ -48,7 +48,7 @@ func init() {
 		cur, _ := ex.ghostGet(c.st, "clock")
 		ex.registerKey("X|timer", arrSort(sInt, sInt))
 		h := ex.heapGet(c.st, "X|timer", arrSort(sInt, sInt))
-		c.st.H["X|timer"] = ex.name("timer", sto(h, ch, app("+", cur.L[0], c.args[0].L[0])), arrSort(sInt, sInt))
+		ex.setH(c.st, "X|timer", ex.name("timer", sto(h, ch, app("+", cur.L[0], c.args[0].L[0])), arrSort(sInt, sInt)))
 		return Val{L: []string{ch}}
 	})
 
